@@ -172,6 +172,8 @@ pub proof fn lemma_mac_xor(m1: u128, k1: u128, b1: bool, m2: u128, k2: u128, b2:
     assert((k1 ^ 0u128) ^ (k2 ^ d) == (k1 ^ k2) ^ d) by(bit_vector);
     assert((k1 ^ 0u128) ^ (k2 ^ 0u128) == (k1 ^ k2) ^ 0u128) by(bit_vector);
 }
+/// trigger carrier for "x ^ 0 == x" facts over a whole vector
+pub open spec fn lemma_xor_zero_trig(a: u128) -> bool { a ^ 0u128 == a }
 pub proof fn lemma_xor_assoc(a: u128, b: u128, c: u128) ensures (a ^ b) ^ c == a ^ (b ^ c) {
     assert((a ^ b) ^ c == a ^ (b ^ c)) by(bit_vector);
 }
